@@ -46,6 +46,11 @@ class GotranPythonCodePrinter(PythonCodePrinter):
     def _print_Float(self, flt):
         return self._print(str(float(flt)))
 
+    def _print_Mod(self, expr):
+        # ``%`` binds like ``*`` in Python, so the expression needs
+        # parentheses when it is part of a product, quotient or power
+        return f"({super()._print_Mod(expr)})"
+
     def _print_Piecewise(self, expr):
         result = []
 
